@@ -3,7 +3,9 @@
 # Prints one line per seed: CAUGHT (exit 1 with VIOLATION), MISSED (exit 0), N/A (patch no longer applies), ERROR.
 cd "$(dirname "$0")"; T=${1:-quick}
 [ -z "$(git -C /repo status --porcelain)" ] || { echo "/repo not clean"; exit 3; }
-for d in $PWD/seeded/*/; do
+# evidence files must describe the unchanged tree: keep the current ones aside and put them back at the end
+EB=$(mktemp -d); cp evidence/*.json $EB/; trap 'cp $EB/*.json evidence/; rm -rf $EB' EXIT
+for d in $PWD/seeded/${SEEDS:-*}/; do
   id=$(basename $d); prop=$(python3 -c "import json;print(json.load(open('$d/meta.json'))['property'])")
   if ! git -C /repo apply --check $d/patch.diff 2>/dev/null; then echo "N/A     $id ($prop): patch does not apply to the current tree"; continue; fi
   git -C /repo apply $d/patch.diff
